@@ -387,3 +387,65 @@ Proof.
   intros ND Hin. destruct (run_top f ms ND Hin) as (cs & p & H & _).
   exists cs, p. split; [exact H|]. now apply interleaving_alone.
 Qed.
+
+(* ---- examples: a nested action, a remote-style sub-action (type 4), a
+   context-less message task and an empty action; 10 of the 12 messages, shuffled ---- *)
+
+Definition ex_f : forest :=
+  [ TAct 10 PSucceeded [TMsg 11; TAct 12 PFailed [TMsg 13; TAct 4 PSucceeded []]; TMsg 11];
+    TMsg 10;
+    TAct 11 PFailed [] ].
+
+Definition ex_pick (ix : list nat) : list pmsg :=
+  map (fun i => nth i (lin ex_f) (mkPmsg 0 [] None None 0)) ix.
+
+(* messages 1 (a child message of task 0) and 7 are missing *)
+Definition ex_ms : list pmsg := ex_pick [11; 5; 0; 10; 3; 8; 6; 2; 9; 4].
+Definition ex_ms' : list pmsg := rev ex_ms.
+
+Example ex_ids : map pm_id (lin ex_f) = seq 0 12.
+Proof. vm_compute. reflexivity. Qed.
+
+Example ex_hyp : NoDup ex_ms /\ incl ex_ms (lin ex_f) /\ Permutation ex_ms ex_ms'.
+Proof.
+  split; [|split].
+  - vm_compute. repeat (constructor; [cbn; intuition discriminate|]). constructor.
+  - intros m Hm. vm_compute in Hm. vm_compute. intuition (subst; auto 20).
+  - apply Permutation_rev.
+Qed.
+
+Example ex_no_error : exists r, parse_loop [] ex_ms [] = POk r.
+Proof. vm_compute. eexists. reflexivity. Qed.
+
+(* same remaining map, the completed tasks (task 2 then task 1 / task 1 then task 2) permuted *)
+Example ex_order :
+  match parse_loop [] ex_ms [], parse_loop [] ex_ms' [] with
+  | POk (d, p), POk (d', p') => p = p' /\ d' = rev d /\ length d = 2 /\ map fst p = [0]
+  | _, _ => False
+  end.
+Proof. vm_compute. repeat split; reflexivity. Qed.
+
+(* task 2 is returned at step 3 when its second message arrives, task 1 (one
+   message) at step 8, task 0 never (two messages missing) *)
+Example ex_complete :
+  match parse_trace [] ex_ms with
+  | POk (cs, p) => map (@length task) cs = [0; 0; 0; 1; 0; 0; 0; 0; 1; 0] /\ map fst p = [0]
+  | PErr _ => False
+  end.
+Proof. vm_compute. split; reflexivity. Qed.
+
+Example ex_interleaving :
+  match parse_trace [] ex_ms with
+  | POk (cs, p) => parse_trace [] (only 0 ex_ms) = POk (select 0 ex_ms cs, restrict p 0)
+                   /\ parse_trace [] (only 2 ex_ms) = POk (select 2 ex_ms cs, restrict p 2)
+  | PErr _ => False
+  end.
+Proof. vm_compute. split; reflexivity. Qed.
+
+(* all messages, in reverse emission order: everything completes *)
+Example ex_all :
+  match parse_loop [] (rev (lin ex_f)) [] with
+  | POk (d, p) => p = [] /\ length d = 3
+  | PErr _ => False
+  end.
+Proof. vm_compute. split; reflexivity. Qed.
